@@ -44,7 +44,8 @@ SegPayloadOk(q, data, pos) ==
 \*   the record (acc).
 BdIdle == [ph |-> "idle", idx |-> 0, sub |-> 0, dlen |-> 0, size |-> -1, crcReq |-> FALSE,
            crcOn |-> FALSE, B |-> 0, base |-> 0, sent |-> 0, fin |-> FALSE, got |-> 0,
-           sfin |-> FALSE, lossBlk |-> 0, losses |-> 0]
+           sfin |-> FALSE, lossBlk |-> 0, losses |-> 0,
+           chk |-> TRUE]      \* chk: the server compares the committed length with the declared size (CiA 301 leaves that to it)
 
 BdClientSegLegal(bd, data, q) ==
     /\ IsFrame8(q)
@@ -83,7 +84,7 @@ BdEndAccept(bd, acc, q) ==      \* does the reference server accept the end requ
         v == BdCommitted(acc, n)
     IN /\ IsFrame8(q) /\ q[1] % 4 = 1 /\ q[1] \div 32 = 6
        /\ Len(acc) >= 7 /\ n \in 0..6
-       /\ (bd.size >= 0 => Len(v) = bd.size)
+       /\ ((bd.chk /\ bd.size >= 0) => Len(v) = bd.size)
        /\ (bd.crcOn => q[2] + 256 * q[3] = Crc16(v))
 
 \* ---- block upload ---------------------------------------------------------------------------
